@@ -261,7 +261,7 @@ def main(argv=None):
         replay_ob = json.load(open(a.replay))
 
     # ---- build from the current working tree
-    fams = spec['families']
+    fams = spec['families'] if tier == 'quick' else spec.get('families_thorough', spec['families'])
     try:
         scratch, binfo = build.build(fams, hook=spec.get('hook', False))
     except Exception as e:
